@@ -35,6 +35,9 @@ OPS: Dict[str, Builder] = {}
 OP_STEP: Dict[str, Tuple[float, float, float]] = {}
 
 
+REQUIRE_PARAM_GRADS: set = set()
+
+
 def op(name: str, step: Optional[Tuple[float, float]] = None):
     def deco(fn: Builder) -> Builder:
         OPS[name] = fn
@@ -122,6 +125,14 @@ def check_op(name: str, case: dict) -> Optional[Tuple[str, str]]:
     if not s.requires_grad:
         return (f"C20:no-grad:{name}:{names[0]}", f"{name}: output does not require grad (detached from all inputs)")
     grads = torch.autograd.grad(s, [leaves[n] for n in names], allow_unused=True)
+    if name in REQUIRE_PARAM_GRADS:
+        # F-20a (repaired by 1b0b194): the displacement field of a composite transform on a grid of another domain
+        # depends on every member's parameters; a gradient that is None / identically zero for ALL of them is a
+        # violation whatever the finite differences say (they are checked below in addition)
+        pg = [g for n, g in zip(names, grads) if n.endswith("params")]
+        if pg and all(g is None or float(g.abs().max()) == 0.0 for g in pg):
+            return (f"C20:zero-grad:{name}:params",
+                    f"{name}: autograd gradient w.r.t. every parameter is None / identically zero")
     # float64 where the operation preserves it; float32 step size / tolerance where it casts (property
     # quantifier).  An operation whose OUTPUT is float32 is differenced with the float32 step only.  An
     # operation with float64 output may still cast internally (grid_sample casts the image to the dtype of
@@ -296,6 +307,23 @@ def _tversky_logits(case):
     return {"logits": z}, lambda: L.tversky_index_with_logits(z, y, weight=w, alpha=0.3, beta=0.7, reduction=red)
 
 
+def _tversky_loss(gamma, logits=False):
+    def build(case):
+        gen, p, y, w = _seg(case)
+        red = case.get("reduction", "mean")
+        if logits:
+            z = leaf(torch.logit(p.detach()))
+            return {"logits": z}, lambda: L.tversky_loss_with_logits(z, y, weight=w, alpha=0.3, beta=0.7, gamma=gamma, reduction=red)
+        return {"input": p}, lambda: L.tversky_loss(p, y, weight=w, alpha=0.3, beta=0.7, epsilon=1e-3, gamma=gamma,
+                                                    normalize=False, binarize=False, reduction=red)
+    return build
+
+
+op("losses.tversky_loss")(_tversky_loss(None))
+op("losses.tversky_loss[gamma=1.5]")(_tversky_loss(1.5))
+op("losses.tversky_loss_with_logits[gamma=2]")(_tversky_loss(2.0, logits=True))
+
+
 @op("losses.balanced_binary_cross_entropy_with_logits")
 def _bbce(case):
     gen, p, y, w = _seg(dict(case, C=1))
@@ -356,6 +384,59 @@ def _elast(case):
     kws = {"mode": case["mode"]} if case.get("mode") else {}
     return {"u": u}, lambda: L.elasticity_loss(u, material_name="brain", reduction=red, **kws) \
         if False else L.elasticity_loss(u, first_parameter=0.8, second_parameter=0.4, reduction=red, **kws)
+
+
+LAME_PAIRS = {
+    "material=rubber": dict(material_name="rubber"),
+    "lambda,mu": dict(first_parameter=0.8, second_parameter=0.4),
+    "lambda,nu": dict(first_parameter=0.8, poissons_ratio=0.3),
+    "lambda,E": dict(first_parameter=0.8, youngs_modulus=1.1),
+    "G,nu": dict(shear_modulus=0.4, poissons_ratio=0.3),
+    "G,E": dict(shear_modulus=0.4, youngs_modulus=1.1),
+    "nu,E": dict(poissons_ratio=0.3, youngs_modulus=1.1),
+}
+
+
+def _elast_pair(pair):
+    def build(case):
+        gen, u = _field(case)
+        red = case.get("reduction", "mean")
+        kws = {"mode": case["mode"]} if case.get("mode") else {}
+        kws.update(LAME_PAIRS[pair])
+        return {"u": u}, lambda: L.elasticity_loss(u, reduction=red, **kws)
+    return build
+
+
+for _p in LAME_PAIRS:
+    op(f"losses.elasticity_loss[{_p}]")(_elast_pair(_p))
+
+
+@op("losses.elasticity_loss[bspline]")
+def _elast_bspline(case):
+    gen = tgen(case["seed"])
+    shape = tuple(max(5, n) for n in spatial_shape(case))
+    c = leaf(randn(gen, 1, len(shape), *shape, scale=0.5))
+    red = case.get("reduction", "mean")
+    return {"data": c}, lambda: L.elasticity_loss(c, first_parameter=0.8, second_parameter=0.4, mode="bspline",
+                                                  stride=2, reduction=red)
+
+
+@op("losses.Elasticity(module)[bspline,stride]")
+def _elast_module(case):
+    from deepali.losses import Elasticity
+    gen = tgen(case["seed"])
+    shape = tuple(max(5, n) for n in spatial_shape(case))
+    c = leaf(randn(gen, 1, len(shape), *shape, scale=0.5))
+    m = Elasticity(first_parameter=0.8, second_parameter=0.4, mode="bspline", stride=2)
+    return {"data": c}, lambda: m(c)
+
+
+@op("losses.NMI(module)")
+def _nmi_module(case):
+    from deepali.losses import NMI
+    gen, a, b, mask = _pair(case)
+    m = NMI(vmin=-4.0, vmax=4.0, num_bins=8)
+    return {"source": a, "target": b}, lambda: m(a, b, mask=mask)
 
 
 @op("losses.bspline_bending_loss")
@@ -727,6 +808,9 @@ def _tensor_op(cname):
     return build
 
 
+REQUIRE_PARAM_GRADS.update(f"spatial.{_c}.disp(other-grid)" for _c in
+                           ["RigidTransform", "RigidQuaternionTransform", "SimilarityTransform", "AffineTransform",
+                            "FullAffineTransform", "Sequential[Affine,FFD]", "Sequential[Rigid,SVF]", "MultiLevel[FFD,FFD]"])
 for _c in ALL_CLASSES:
     op(f"spatial.{_c}.forward")(_forward_op(_c))
     op(f"spatial.{_c}.inverse.forward")(_inverse_op(_c))
@@ -809,7 +893,7 @@ def gen_cases(rng: random.Random, tier: str, names: Optional[List[str]] = None):
                         continue
                 if name in ("core.euler_rotation_matrix", "losses.kld_loss") and D == 3:
                     continue
-                if "bspline]" in name and D == 3:
+                if "bspline]" in name and D == 3 and not name.startswith("losses."):
                     continue
                 shape = list(rng.choice(SHAPES2 if D == 2 else SHAPES3))
                 c = {"op": name, "shape": shape, "seed": rng.randrange(1 << 30), "ac": rng.random() < 0.5}
@@ -817,7 +901,7 @@ def gen_cases(rng: random.Random, tier: str, names: Optional[List[str]] = None):
                     c["reduction"] = rng.choice(["mean", "sum", "none"])
                     c["mask"] = rng.random() < 0.5
                     c["mode"] = rng.choice([None, "central", "forward_central_backward", "sobel"])
-                    if name in ("losses.mi_loss", "losses.nmi_loss"):
+                    if "mi_loss" in name or "(module)" in name:
                         c["reduction"] = "mean"
                 if name.startswith("core.") and "sample" in name or name.startswith("data.") or name == "core.warp_image":
                     c["padding"] = rng.choice(["border", "zeros"])
